@@ -107,6 +107,17 @@ CLAIMED = {
              "histories, so a Jacobian that is self-consistent but belongs to a stale kinematic model is seen. Derivative "
              "by finite differences (threshold 1e-6 relative).",
         note="TLC for the history space; finite differences of the implementation's FK; RefEval adjoints"),
+    "C07": dict(
+        level="model_checking", design="3/C07",
+        technique="TLA+ spec Arm.tla with the IK postcondition IKPost; randomised IK campaigns on real arms (goal classes "
+                  "reach/boundary/beyond/between-the-tolerances, start classes, three tolerance settings, restarts on/off, "
+                  "IK / IK(protect) / IKFree, after base moves and tool changes) recorded and validated by TLC against "
+                  "ArmTrace.tla; IK steps inside C05's TLC-generated histories checked for the unreachable-goal clause",
+        text="Every recorded IK call must be a step of the spec whose projected residuals (computed by RefEval against "
+             "base*PoE*tool) satisfy IKPost; goals between the two tolerances are generated on purpose so a swap is "
+             "visible. Randomised, TLC decides each trace.",
+        note="TLC trace validation; RefEval residuals; weakest reading of the position tolerance; tolerances >= 1e-5 "
+             "(the exp/log cut-off hides errors below 1e-6)"),
 }
 
 NOT_YET = "check not built yet in this round (planned: see DESIGN.md section 3)"
